@@ -21,6 +21,9 @@ CLAIMED = {
     "C01": ("exploration", "contracts on the real Tuner methods against abstract scheduler / back end / callbacks with interface contracts and ghost protocol state; call-site protocol preconditions and postconditions decided by bounded symbolic execution (pyvc) and z3; counter-models replayed natively with scripted stubs",
             "Bounded stand-in (<= 2 trials, <= 3 results per poll, n_workers <= 2; all ids, statuses, decisions symbolic): every call of the scheduler / back end in Tuner._update_running_trials, _schedule_new_task and _schedule_new_tasks satisfies the life-cycle protocol (start -> results -> exactly one end; stop/pause only of running trials; resume only of paused ones; ids in sequence; worker budget; started trials are polled). The simulator back-end half is in C10's scenario.",
             "Interface contracts of the abstract collaborators are assumed (contracts/iface.py); the tuning loop Tuner.run itself and concrete schedulers' resume discipline are covered only as far as C04/C05/C12 go; real worker processes out of reach.", "5/C01"),
+    "C02": ("exploration", "contracts and harnesses on the real classes decided by bounded symbolic execution (pyvc) and z3: generic poll back end under arbitrary batching, simulator back end scenario, tuner skip rule with ghost delivery log",
+            "Bounded stand-in: the generic TrialBackend fetch/pause/resume logic for every split of a run's results between polls (counts symbolic, <= 3 results), the simulator back end scenario of C10 (exactly once, in order, nothing after stop/pause, everything before completion), and Tuner._update_running_trials (results after a STOP/PAUSE decision in the same batch are neither delivered nor logged). Two defects are recorded as known findings (F5, F9).",
+            "Bounded sizes; interface contracts assumed for the tuner-side obligations; LocalBackend file I/O out of reach.", "5/C02"),
     "C04": ("proof", "contract-based deductive verification: VCs generated from the real AST (pyvc) with loop invariants and modular callee contracts, discharged by z3/cvc5; bounded-shape stand-in for the cost-aware variant and for witnesses",
             "Unbounded verification conditions (rung contents of any length, 0..3 rungs) for PromotionRungSystem (find/mark/schedule/add/report/remove) and PASHA's resource cap in on_task_schedule, from /repo's source on every run; cost-aware eligibility bounded (<=4 entries).",
             "A-REAL; SortedList contract trusted; number of rungs concrete in proof units; cost values non-negative; PASHA ranking/epsilon logic and DyHPO not covered; pyvc encoding and SMT solvers trusted.", "5/C04"),
